@@ -176,7 +176,7 @@ def body(chk, db, cfgname):
         for j, n in g.walk(g.body):
             if (n["k"] == "call" and n.get("ck") == "op" and n.get("op") == "=") or (n["k"] == "bin" and n["op"] == "="):
                 stores.append((j, gctx.key(j)))
-        loops = [j for j, n in g.walk(g.body) if n["k"] == "for"]
+        loops = [j for j, n in g.walk(g.body) if n["k"] in ("for", "while", "forrange", "do")]
         inner = None
         for Lp in loops:
             s_ = loop_shape(g, gctx, Lp)
@@ -188,8 +188,10 @@ def body(chk, db, cfgname):
             if s_["kind"] == "iter" and s_["bound"] == fld(FC + "::mapCreationOperators"):
                 outer = s_
         site = FC + "::computeAll:loops"
-        if inner is None or outer is None or inner["exits"] or outer["exits"]:
-            r2.bad(site, g.loc(), "not every creation operator / not every block pair of its map is visited", cfgname)
+        if inner is None or outer is None:
+            raise AnalysisBroken("the loops over the creation operators / over the right view of a block map were not recognised")
+        if inner["exits"] or outer["exits"]:
+            r2.bad(site, g.loc(), "not every creation operator / not every block pair of its map is visited (%s)" % "; ".join(str(e_[1]) for e_ in (inner["exits"] + outer["exits"])[:2]), cfgname)
             raise AnalysisBroken("loops")
         r2.ok(site, g.loc(), "all creation operators, all entries of the right view of their block map", cfgname)
         it = inner["var"]
